@@ -62,6 +62,11 @@ def check_C01(tier, seed):
         res = tlc_parse(v, c, INV_PARSE)
         parsecheck.replay(v, exe, res, aspects={"tree", "diag"}, seed=seed,
                           renderings=("canonical", "varied") if tier == "quick" else ("canonical",), tag="C01")
+    # leg B: recorded executions on random schemas with long random texts, validated against the specification
+    from . import tracegen
+    tracegen.run(v, exe, 120 if tier == "quick" else 2500, seed, tag="C01trace", texts_per=4, calls_per=3)
+    if tier == "thorough":
+        v.notes.append("binding self-test: " + tracegen.selftest_binding(v, exe, seed))
     v.cov["exhaustive"] = True
     return v.finish(rule="every token sequence up to the configured length over the schema's alphabet (TLC BFS) for eight schemas "
                          "(flat, sections, unique titles / free-form / deprecated / no-default, three levels + function, case-insensitive "
@@ -175,6 +180,8 @@ def check_C09(tier, seed):
     for c in cfgs(tier, ["api_quick.cfg", "api_nopre_quick.cfg"], ["api_thorough.cfg"]):
         res = tlc_api(v, c)
         apicheck.replay(v, exe, res, aspects={"tree", "freed", "balance"}, seed=seed, tag="C09")
+    from . import tracegen
+    tracegen.run(v, exe, 120 if tier == "quick" else 2500, seed + 17, tag="C09trace", texts_per=1, calls_per=25)
     v.cov["exhaustive"] = True
     return v.finish(rule="state graph of the abstract store under ~60 call instances (setters, list set/append, bulk set, set-from-text, "
                          "annotation, titled add, remove by index/title, section-relative calls, wrong type / index / name) explored to the "
